@@ -66,7 +66,7 @@ PLAN = {
     "C11": {"quick": [e1(16000, kinds=BUF_KINDS, probe=0.12), e3(800)],
             "thorough": [e1(200000, kinds=BUF_KINDS, probe=0.12), e3(8000)]},
     "C15": {"quick": [e3(8000)], "thorough": [e3(80000)]},
-    "C16": {"quick": [e3(8000, templates=["pack", "packunpack"])], "thorough": [e3(80000, templates=["pack", "packunpack"])]},
+    "C16": {"quick": [e3(8000, templates=["pack", "packunpack", "packpack"])], "thorough": [e3(80000, templates=["pack", "packunpack", "packpack"])]},
     "C17": {"quick": [e3(8000)], "thorough": [e3(80000)]},
     "C18": {"quick": [e3(8000), e1(8000)], "thorough": [e3(80000), e1(80000)]},
     "C19": {"quick": [{"engine": "E7", "params": {"min_T": 120}, "cases": 160, "timeout": 1200},
@@ -75,10 +75,10 @@ PLAN = {
                       {"engine": "E7", "params": {"children": 0, "templates": ["packunpack", "splitline", "pack", "diamond", "fanin", "line"]}, "cases": 1200, "timeout": 1200}],
             "thorough": [{"engine": "E7", "params": {"min_T": 120}, "cases": 3200, "timeout": 6000},
                          {"engine": "E7", "params": {"children": 0, "templates": ["packunpack", "splitline", "pack", "diamond", "fanin", "line"]}, "cases": 32000, "timeout": 6000}]},
-    "C12": {"quick": [{"engine": "E4", "params": {}, "cases": 12000}, {"engine": "E4", "params": {"aligned": 1, "kind": "cont_nacc"}, "cases": 6000}, {"engine": "E4", "params": {"ragged": 1, "kind": "cont_nacc"}, "cases": 320}, e3(4000, templates=["line", "fanin", "diamond"])],
-            "thorough": [{"engine": "E4", "params": {}, "cases": 240000}, {"engine": "E4", "params": {"aligned": 1, "kind": "cont_nacc"}, "cases": 60000}, {"engine": "E4", "params": {"ragged": 1}, "cases": 3200}, e3(40000)]},
-    "C13": {"quick": [{"engine": "E4", "params": {}, "cases": 12000}, {"engine": "E4", "params": {"aligned": 1, "kind": "cont_nacc"}, "cases": 6000}, e3(4000, templates=["line", "fanin", "diamond"])],
-            "thorough": [{"engine": "E4", "params": {}, "cases": 240000}, {"engine": "E4", "params": {"aligned": 1, "kind": "cont_nacc"}, "cases": 60000}, e3(40000)]},
+    "C12": {"quick": [{"engine": "E4", "params": {}, "cases": 12000}, {"engine": "E4", "params": {"aligned": 1, "kind": "cont_nacc"}, "cases": 6000}, {"engine": "E4", "params": {"ragged": 1, "kind": "cont_nacc"}, "cases": 320}, e3(4000, templates=["line", "fanin", "diamond"]), e1(6000, kinds=["belt_nacc", "belt_acc", "slotbelt"], profiles=["slow_consumer", "mixed", "full_store", "burst", "hoarder"])],
+            "thorough": [{"engine": "E4", "params": {}, "cases": 240000}, {"engine": "E4", "params": {"aligned": 1, "kind": "cont_nacc"}, "cases": 60000}, {"engine": "E4", "params": {"ragged": 1}, "cases": 3200}, e3(40000), e1(60000, kinds=["belt_nacc", "belt_acc", "slotbelt"], profiles=["slow_consumer", "mixed", "full_store", "burst", "hoarder"])]},
+    "C13": {"quick": [{"engine": "E4", "params": {}, "cases": 12000}, {"engine": "E4", "params": {"aligned": 1, "kind": "cont_nacc"}, "cases": 6000}, e3(4000, templates=["line", "fanin", "diamond"]), e1(6000, kinds=["belt_nacc", "belt_acc", "slotbelt"], profiles=["slow_consumer", "mixed", "full_store", "burst", "hoarder"])],
+            "thorough": [{"engine": "E4", "params": {}, "cases": 240000}, {"engine": "E4", "params": {"aligned": 1, "kind": "cont_nacc"}, "cases": 60000}, e3(40000), e1(60000, kinds=["belt_nacc", "belt_acc", "slotbelt"], profiles=["slow_consumer", "mixed", "full_store", "burst", "hoarder"])]},
     "C20": {"quick": [{"engine": "E8", "params": {"table": "matrix"}, "cases": 2592}, {"engine": "E8", "params": {"table": "invalid"}, "cases": 38},
                       e3(8000), e1(8000, kinds=ALL_KINDS)],
             "thorough": [{"engine": "E8", "params": {"table": "matrix"}, "cases": 7776}, {"engine": "E8", "params": {"table": "invalid"}, "cases": 38},
@@ -109,9 +109,9 @@ RULES = {
     "C18": "E3 random factories + E1 store histories; non-trivial = >=20 items received and an edge whose occupancy changed >=10 times (E3) / >=6 occupancy changes (E1)",
     "C19": "E7: E3 model specs (>=120 time units) each run twice in one interpreter, once unmonitored, and in 2 fresh interpreters with PYTHONHASHSEED 1 / 4242 and different heap pre-fill; "
            "logs (time, edge, op, item) and final statistics compared exactly; clock monotonicity checked at every kernel step; non-trivial = spec uses RANDOM policies / random delays or a conveyor and logged >=200 item movements",
-    "C12": "E4: scripted producer/consumer on one conveyor (continuous/slotted x accumulating/not; integer belt lengths that are multiples of the item length, plus a 'ragged' geometry class; regular/bursty/irregular/saturating arrivals; eager/stalling consumers) + conveyor edges of E3 factories; "
+    "C12": "E4: scripted producer/consumer on one conveyor (continuous/slotted x accumulating/not; integer belt lengths that are multiples of the item length, plus a 'ragged' geometry class; regular/bursty/irregular/saturating arrivals; eager/stalling consumers) + conveyor edges of E3 factories + hostile multi-client E1 histories on belt stores (tokens held across time, cancels); "
            "non-trivial = >=8 items and (a put and a get in one instant, or >=4 undisturbed journeys checked for exact travel time); distinct by operation-log / spec hash",
-    "C13": "E4 stalling-consumer scripts + conveyor edges of E3 factories; non-trivial = >=2 stalls with >=2 items on the belt during one of them; distinct by operation-log / spec hash",
+    "C13": "E4 stalling-consumer scripts + conveyor edges of E3 factories + hostile multi-client E1 histories on belt stores (puts with a reservation granted before the stall); non-trivial = >=2 stalls with >=2 items on the belt during one of them; distinct by operation-log / spec hash",
     "C20": "E8: the complete single-stage matrix node type x edge-in x edge-out x blocking x policy x source blocking x zero delays (2592 models; x3 construction orders in thorough) and the table of 38 invalid configurations (both exhaustive), "
            "+ E3 random factories (every documented combination) + E1 histories on all store kinds incl. belts; non-trivial = every model counts (the property is about each of them); distinct by model index / spec hash",
     "C14": "E5: scripted loading/consumption on one Fleet (capacity 1-5, delay .5-3, transit 0-1.5, gaps aligned with trip boundaries) + E1 fleet histories; "
